@@ -95,3 +95,57 @@ Proof.
 Qed.
 Lemma loaded_wf v cf c : vcf_ok v = true -> ct_wf (getd seqb (contig_table v cf c) c).
 Proof. intros Hv. apply tbl_wf_getd, contig_table_wf, Hv. Qed.
+
+(* ------------------------------------------------------------------ one setting, any mode flags: no name condition needed *)
+Definition sem_eq (cf cf0 : cfg) : Prop :=
+  c_phased cf = c_phased cf0 /\ c_select cf = c_select cf0 /\ c_ignore cf = c_ignore cf0.
+
+Lemma cache_name_ext cf cf0 c : sem_eq cf cf0 -> cache_name cf c = cache_name cf0 c.
+Proof. intros (H1 & H2 & H3). unfold cache_name. rewrite H1, H2, H3. reflexivity. Qed.
+Lemma cache_name_contig cf c1 c2 : cache_name cf c1 = cache_name cf c2 -> c1 = c2.
+Proof. unfold cache_name. intros H. apply app_inv_tail in H. exact H. Qed.
+
+Lemma sel_same_refl a : sel_same a a = true.
+Proof.
+  destruct a as [l|]; [|reflexivity]. cbn. rewrite Nat.eqb_refl. cbn.
+  assert (H : forallb (fun s => smem s l) l = true) by (apply forallb_forall; intros s Hs; apply smem_In, Hs).
+  rewrite H. reflexivity.
+Qed.
+Lemma ign_same_refl a : ign_same a a = true.
+Proof.
+  unfold ign_same.
+  assert (H : forallb (fun q => pair_mem (fst q) (snd q) (ign_list a)) (ign_list a) = true).
+  { apply forallb_forall. intros [x y] Hq. apply pair_mem_In. exact Hq. }
+  rewrite H. reflexivity.
+Qed.
+Lemma sem_eq_same_sem cf1 cf2 cf0 : sem_eq cf1 cf0 -> sem_eq cf2 cf0 -> same_sem cf1 cf2 = true.
+Proof.
+  intros (A1 & A2 & A3) (B1 & B2 & B3). unfold same_sem. rewrite A1, A2, A3, B1, B2, B3.
+  rewrite sel_same_refl, ign_same_refl. destruct (c_phased cf0); reflexivity.
+Qed.
+
+Lemma names_ok_one_setting ks cf0 : (forall k, In k ks -> sem_eq (fst k) cf0) -> names_ok ks = true.
+Proof.
+  intros H. unfold names_ok. apply forallb_forall. intros k1 H1. apply forallb_forall. intros k2 H2.
+  destruct (seqb (cache_name (fst k1) (snd k1)) (cache_name (fst k2) (snd k2))) eqn:E; [|reflexivity]. cbn [negb orb].
+  apply seqb_eq in E. rewrite (cache_name_ext _ cf0 _ (H k1 H1)), (cache_name_ext _ cf0 _ (H k2 H2)) in E.
+  apply cache_name_contig in E. rewrite E, seqb_refl. cbn [andb].
+  apply (sem_eq_same_sem _ _ cf0); [apply H, H1|apply H, H2].
+Qed.
+
+Lemma keys_of_In_inv h k : In k (keys_of h) -> exists run, In run h /\ fst k = fst run.
+Proof.
+  unfold keys_of. intros H. apply in_flat_map in H. destruct H as (run & Hr & Hk). apply in_map_iff in Hk.
+  destruct Hk as (q & E & _). subst k. exists run. split; [exact Hr|reflexivity].
+Qed.
+
+Theorem one_setting_spec v cf0 h : vcf_ok v = true ->
+  (forall run, In run h -> sem_eq (fst run) cf0) ->
+  (forall run q, In run h -> In q (snd run) -> 0 <= query_pos q) ->
+  snd (run_history v [] h) = map (spec_run v) h.
+Proof.
+  intros Hv Hs Hp. apply history_spec; [exact Hv|]. unfold hist_ok. apply andb_true_iff. split.
+  - apply forallb_forall. intros run Hr. apply forallb_forall. intros q Hq. apply Z.leb_le. apply (Hp run q Hr Hq).
+  - apply (names_ok_one_setting _ cf0). intros k Hk. apply keys_of_In_inv in Hk. destruct Hk as (run & Hr & E).
+    rewrite E. apply Hs, Hr.
+Qed.
